@@ -283,6 +283,12 @@ theorem readResponse_total_bounded (cfg : Cfg) (hb : cfg.bounded = true) (hr : R
 /-- the decoder of the CURRENT source tree is the bounded one (fact re-extracted on every run) -/
 theorem source_decoder_is_bounded : Gen.decoderCfg.bounded = true := by decide
 
+/-- the decoder allocates arrays as their elements arrive (fact G8, re-extracted on every run): a count inside the ANNOUNCED
+frame size but beyond the bytes received (C20-D30: size prefix 2^31-1 and count 2^27 in 12 bytes) does not allocate ahead of the
+data.  The model's allocation bound is stated against `remain`; this fact and the `lying-size-and-count` frames of the check
+cover the gap between announced and received. -/
+theorem source_arrays_grow : Gen.arraysGrow = true := by decide
+
 /-- C20 for the code as it is now -/
 theorem readResponse_total_source (flex : Bool) (t : Ty) (stream : Bytes) :
     Safe (readResponse Gen.decoderCfg flex t stream) :=
